@@ -20,7 +20,7 @@ package actor
 //   engine takes the atomic claim path production takes, never the generic
 //   exists-then-put fallback).
 //
-// HOW A NODE IS WIRED (vfcStartNode) — production code except the storage swap:
+// HOW A NODE IS WIRED (vfcCluster.startNode) — production code except the storage swap:
 //   NewActorSystem(WithRemote, WithCluster(cfg)) validates the cluster config; the
 //   system is started with clustering switched off, then clustering is switched on
 //   and the production steps run in production order with the fake in place:
